@@ -637,3 +637,856 @@ Proof.
     split; [intros; lia|].
     exists d. split; [exact H4|]. split; [lia|]. intros _. exact H5.
 Qed.
+
+(* ------------------------------------------------------------------ *)
+(* 6. the length limiter                                                *)
+
+(* weighted sum of the counts lc[a..a+m-1] *)
+Definition wsum (f : nat -> N) (a m : nat) (lc : list N) : N :=
+  sumN (map (fun i => nthN lc (N.of_nat i) * f i) (seq a m)).
+
+Lemma gp_wsum_S : forall f a m lc,
+  wsum f a (S m) lc = nthN lc (N.of_nat a) * f a + wsum f (S a) m lc.
+Proof. intros. reflexivity. Qed.
+
+Lemma gp_wsum_0 : forall f a lc, wsum f a 0 lc = 0.
+Proof. intros. reflexivity. Qed.
+
+Lemma gp_wsum_app : forall f a m1 m2 lc,
+  wsum f a (m1 + m2) lc = wsum f a m1 lc + wsum f (a + m1) m2 lc.
+Proof.
+  intros. unfold wsum. rewrite seq_app, map_app. apply gp_sumN_app.
+Qed.
+
+Lemma gp_wsum_upd_out : forall f m a lc v x, (v < a \/ a + m <= v)%nat ->
+  wsum f a m (updN lc (N.of_nat v) x) = wsum f a m lc.
+Proof.
+  intros f m. induction m as [|m IH]; intros a lc v x Hv; [reflexivity|].
+  rewrite !gp_wsum_S. rewrite IH by lia. rewrite gp_nthN_updN_other by lia. reflexivity.
+Qed.
+
+Lemma gp_wsum_upd : forall f m a lc v x, (a <= v)%nat -> (v < a + m)%nat -> (v < length lc)%nat ->
+  wsum f a m (updN lc (N.of_nat v) x) + nthN lc (N.of_nat v) * f v = wsum f a m lc + x * f v.
+Proof.
+  intros f m. induction m as [|m IH]; intros a lc v x Hav Hvm Hvl; [lia|].
+  rewrite !gp_wsum_S. destruct (Nat.eq_dec a v) as [E|E].
+  - subst v. rewrite gp_nthN_updN_same by lia. rewrite gp_wsum_upd_out by lia. lia.
+  - rewrite gp_nthN_updN_other by lia.
+    assert (H := IH (S a) lc v x ltac:(lia) ltac:(lia) Hvl). lia.
+Qed.
+
+Lemma gp_wsum_ext : forall f g m a lc, (forall i, (a <= i)%nat -> (i < a + m)%nat -> f i = g i) ->
+  wsum f a m lc = wsum g a m lc.
+Proof.
+  intros f g m. induction m as [|m IH]; intros a lc H; [reflexivity|].
+  rewrite !gp_wsum_S. rewrite (H a) by lia. rewrite (IH (S a)); [reflexivity|].
+  intros i Hi Him. apply H; lia.
+Qed.
+
+Lemma gp_wsum_le : forall f g m a lc, (forall i, (a <= i)%nat -> (i < a + m)%nat -> f i <= g i) ->
+  wsum f a m lc <= wsum g a m lc.
+Proof.
+  intros f g m. induction m as [|m IH]; intros a lc H; [rewrite !gp_wsum_0; lia|].
+  rewrite !gp_wsum_S.
+  assert (H1 : f a <= g a) by (apply H; lia).
+  assert (H2 : wsum f (S a) m lc <= wsum g (S a) m lc) by (apply IH; intros i Hi Him; apply H; lia).
+  assert (H3 : nthN lc (N.of_nat a) * f a <= nthN lc (N.of_nat a) * g a) by (apply N.mul_le_mono_l; exact H1).
+  lia.
+Qed.
+
+Lemma gp_wsum_scale : forall c f m a lc, wsum (fun i => c * f i) a m lc = c * wsum f a m lc.
+Proof.
+  intros c f m. induction m as [|m IH]; intros a lc; [rewrite !gp_wsum_0; lia|].
+  rewrite !gp_wsum_S. rewrite IH. lia.
+Qed.
+
+Lemma gp_wsum_zero : forall f m a lc, (forall i, (a <= i)%nat -> (i < a + m)%nat -> nthN lc (N.of_nat i) = 0) ->
+  wsum f a m lc = 0.
+Proof.
+  intros f m. induction m as [|m IH]; intros a lc H; [reflexivity|].
+  rewrite gp_wsum_S. rewrite (H a) by lia. rewrite IH; [lia|]. intros i Hi Him. apply H; lia.
+Qed.
+
+Lemma gp_wsum_term : forall f m a lc i, (a <= i)%nat -> (i < a + m)%nat ->
+  nthN lc (N.of_nat i) * f i <= wsum f a m lc.
+Proof.
+  intros f m. induction m as [|m IH]; intros a lc i Hi Him; [lia|].
+  rewrite gp_wsum_S. destruct (Nat.eq_dec a i) as [E|E].
+  - subst i. lia.
+  - assert (H := IH (S a) lc i ltac:(lia) ltac:(lia)). lia.
+Qed.
+
+Lemma gp_nth_firstn : forall (l : list N) k i d, (i < k)%nat -> nth i (firstn k l) d = nth i l d.
+Proof.
+  induction l as [|x l IH]; intros k i d H.
+  - rewrite firstn_nil. reflexivity.
+  - destruct k as [|k]; [lia|]. cbn [firstn]. destruct i as [|i]; [reflexivity|].
+    cbn [nth]. apply IH. lia.
+Qed.
+
+Lemma gp_wsum_firstn : forall f m a k lc, (a + m <= k)%nat ->
+  wsum f a m (firstn k lc) = wsum f a m lc.
+Proof.
+  intros f m. induction m as [|m IH]; intros a k lc H; [reflexivity|].
+  rewrite !gp_wsum_S. rewrite IH by lia. f_equal. f_equal.
+  unfold nthN. rewrite Nat2N.id. apply gp_nth_firstn. lia.
+Qed.
+
+Lemma gp_skipn_nth : forall (l : list N) a, (a < length l)%nat ->
+  skipn a l = nth a l 0 :: skipn (S a) l.
+Proof.
+  induction l as [|x l IH]; intros a Ha; cbn [length] in Ha; [lia|].
+  destruct a as [|a]; [reflexivity|]. cbn [skipn nth]. rewrite IH by lia. reflexivity.
+Qed.
+
+Lemma gp_sum_skipn : forall k a (l : list N), length l = (a + k)%nat ->
+  sumN (skipn a l) = wsum (fun _ => 1) a k l.
+Proof.
+  induction k as [|k IH]; intros a l Hl.
+  - rewrite skipn_all2 by lia. reflexivity.
+  - rewrite gp_skipn_nth by lia. cbn [sumN]. rewrite gp_wsum_S. rewrite IH by lia.
+    unfold nthN. rewrite Nat2N.id. lia.
+Qed.
+
+(* count_into *)
+Lemma gp_nthN_repeat0 : forall k i, nthN (repeat 0 k) i = 0.
+Proof.
+  intros k i. unfold nthN. destruct (Nat.lt_ge_cases (N.to_nat i) k) as [H|H].
+  - apply nth_repeat.
+  - apply nth_overflow. rewrite repeat_length. exact H.
+Qed.
+
+Lemma gp_count_into_length : forall ws lc, length (count_into ws lc) = length lc.
+Proof.
+  induction ws as [|v r IH]; intros lc; cbn [count_into]; [reflexivity|].
+  rewrite IH. apply gp_incN_length.
+Qed.
+
+Lemma gp_wsum_count_into : forall f m ws lc, length lc = S m ->
+  Forall (fun x => 1 <= x /\ x <= N.of_nat m) ws ->
+  wsum f 1 m (count_into ws lc) = wsum f 1 m lc + sumN (map (fun x => f (N.to_nat x)) ws).
+Proof.
+  intros f m ws. induction ws as [|v r IH]; intros lc Hl Hws.
+  - cbn [count_into map sumN]. lia.
+  - cbn [count_into map sumN]. inversion Hws as [|v' r' Hv Hr]; subst v' r'.
+    rewrite IH; [|rewrite gp_incN_length; exact Hl|exact Hr].
+    unfold incN. replace v with (N.of_nat (N.to_nat v)) at 1 2 by lia.
+    assert (H := gp_wsum_upd f m 1%nat lc (N.to_nat v) (nthN lc (N.of_nat (N.to_nat v)) + 1)
+                   ltac:(lia) ltac:(lia) ltac:(lia)).
+    lia.
+Qed.
+
+(* the two sums we follow *)
+Definition cnt_total (m : nat) (lc : list N) : N := wsum (fun _ => 1) 1 m lc.
+
+Lemma gp_kraft_total_wsum : forall m lc,
+  kraft_total m lc = wsum (fun i => 2 ^ N.of_nat (m - i)) 1 m lc.
+Proof. intros. reflexivity. Qed.
+
+(* move_one *)
+Lemma gp_move_one : forall i lc,
+  (exists j, (1 <= j)%nat /\ (j <= i)%nat /\ nthN lc (N.of_nat j) <> 0) ->
+  exists j, (1 <= j)%nat /\ (j <= i)%nat /\ nthN lc (N.of_nat j) <> 0 /\
+    move_one i lc = incN (updN lc (N.of_nat j) (nthN lc (N.of_nat j) - 1)) (N.of_nat j + 1) 2.
+Proof.
+  induction i as [|i IH]; intros lc Hex.
+  - destruct Hex as (j & H1 & H2 & _). lia.
+  - cbn [move_one]. destruct (negb (nthN lc (N.of_nat (S i)) =? 0)) eqn:Ec.
+    + exists (S i). apply negb_true_iff in Ec. apply N.eqb_neq in Ec.
+      split; [lia|]. split; [lia|]. split; [exact Ec|reflexivity].
+    + apply negb_false_iff in Ec. apply N.eqb_eq in Ec.
+      destruct (IH lc) as (j & H1 & H2 & H3 & H4).
+      * destruct Hex as (j & H1 & H2 & H3). exists j. split; [exact H1|]. split; [|exact H3].
+        destruct (Nat.eq_dec j (S i)) as [E|E]; [subst j; contradiction|lia].
+      * exists j. split; [exact H1|]. split; [lia|]. split; [exact H3|exact H4].
+Qed.
+
+Lemma gp_wsum_nonzero : forall f m a lc, wsum f a m lc <> 0 ->
+  exists j, (a <= j)%nat /\ (j < a + m)%nat /\ nthN lc (N.of_nat j) <> 0.
+Proof.
+  intros f m. induction m as [|m IH]; intros a lc H.
+  - rewrite gp_wsum_0 in H. contradiction.
+  - rewrite gp_wsum_S in H.
+    destruct (N.eq_dec (nthN lc (N.of_nat a)) 0) as [E|E].
+    + rewrite E in H. destruct (IH (S a) lc) as (j & H1 & H2 & H3); [lia|].
+      exists j. split; [lia|]. split; [lia|exact H3].
+    + exists a. split; [lia|]. split; [lia|exact E].
+Qed.
+
+(* the invariant of kraft_fix *)
+Definition kf_inv (limit : nat) (n : N) (lc : list N) (E : N) : Prop :=
+  length lc = S limit /\
+  cnt_total limit lc = n /\
+  kraft_total limit lc = 2 ^ N.of_nat limit + E /\
+  (E = 0 \/ E < nthN lc (N.of_nat limit)).
+
+Lemma gp_wsum_last : forall f m lc, wsum f 1 (S m) lc = wsum f 1 m lc + nthN lc (N.of_nat (S m)) * f (S m).
+Proof.
+  intros f m lc. replace (S m) with (m + 1)%nat at 1 by lia. rewrite gp_wsum_app.
+  rewrite gp_wsum_S, gp_wsum_0. replace (1 + m)%nat with (S m) by lia. lia.
+Qed.
+
+Lemma gp_kraft_fix_step : forall limit n lc E,
+  (1 <= limit)%nat -> n <= 2 ^ N.of_nat limit -> 1 <= E ->
+  kf_inv limit n lc E ->
+  kf_inv limit n (move_one (limit - 1)
+                    (updN lc (N.of_nat limit) (nthN lc (N.of_nat limit) - 1))) (E - 1).
+Proof.
+  intros limit n lc E Hlim Hn HE (Hlen & Hcnt & Hkr & HEl).
+  destruct HEl as [HEl|HEl]; [lia|].
+  set (cl := nthN lc (N.of_nat limit)) in *.
+  set (lcA := updN lc (N.of_nat limit) (cl - 1)).
+  set (fk := fun i : nat => 2 ^ N.of_nat (limit - i)).
+  assert (HlenA : length lcA = S limit) by (unfold lcA; rewrite gp_updN_length; exact Hlen).
+  assert (HcntA : cnt_total limit lcA + 1 = n).
+  { unfold cnt_total, lcA.
+    assert (H := gp_wsum_upd (fun _ => 1) limit 1%nat lc limit (cl - 1) ltac:(lia) ltac:(lia) ltac:(lia)).
+    cbv beta in H. fold cl in H. unfold cnt_total in Hcnt. lia. }
+  assert (HkrA : kraft_total limit lcA + 1 = 2 ^ N.of_nat limit + E).
+  { rewrite gp_kraft_total_wsum in *. fold fk in Hkr |- *. unfold lcA.
+    assert (H := gp_wsum_upd fk limit 1%nat lc limit (cl - 1) ltac:(lia) ltac:(lia) ltac:(lia)).
+    fold cl in H. assert (Hf : fk limit = 1) by (unfold fk; rewrite Nat.sub_diag; reflexivity).
+    rewrite Hf in H. lia. }
+  assert (HlA : nthN lcA (N.of_nat limit) = cl - 1).
+  { unfold lcA. apply gp_nthN_updN_same. lia. }
+  (* a shallower level is occupied *)
+  assert (Hex : exists j, (1 <= j)%nat /\ (j <= limit - 1)%nat /\ nthN lcA (N.of_nat j) <> 0).
+  { destruct (N.eq_dec (wsum (fun _ => 1) 1 (limit - 1) lcA) 0) as [Ez|Ez].
+    - exfalso.
+      assert (Hz : forall i, (1 <= i)%nat -> (i < 1 + (limit - 1))%nat -> nthN lcA (N.of_nat i) = 0).
+      { intros i Hi Him.
+        assert (Ht := gp_wsum_term (fun _ => 1) (limit - 1) 1%nat lcA i Hi Him).
+        cbv beta in Ht. lia. }
+      assert (Hk0 : wsum fk 1 (limit - 1) lcA = 0) by (apply gp_wsum_zero; exact Hz).
+      destruct limit as [|l]; [lia|].
+      replace (S l - 1)%nat with l in * by lia.
+      unfold cnt_total in HcntA. rewrite gp_wsum_last in HcntA. rewrite Ez in HcntA.
+      rewrite gp_kraft_total_wsum in HkrA. fold fk in HkrA. rewrite gp_wsum_last in HkrA.
+      rewrite Hk0 in HkrA.
+      assert (Hf : fk (S l) = 1) by (unfold fk; rewrite Nat.sub_diag; reflexivity).
+      rewrite Hf in HkrA. lia.
+    - destruct (gp_wsum_nonzero _ _ _ _ Ez) as (j & Hj1 & Hj2 & Hj3).
+      exists j. split; [lia|]. split; [lia|exact Hj3]. }
+  destruct (gp_move_one (limit - 1) lcA Hex) as (j & Hj1 & Hj2 & Hj3 & Hmv).
+  rewrite Hmv. clear Hmv Hex.
+  set (cj := nthN lcA (N.of_nat j)) in *.
+  set (lcB := updN lcA (N.of_nat j) (cj - 1)).
+  assert (HlenB : length lcB = S limit) by (unfold lcB; rewrite gp_updN_length; exact HlenA).
+  replace (N.of_nat j + 1) with (N.of_nat (S j)) by lia.
+  unfold incN. set (cj1 := nthN lcB (N.of_nat (S j))).
+  set (lcC := updN lcB (N.of_nat (S j)) (cj1 + 2)).
+  assert (HcntB : cnt_total limit lcB + 1 = cnt_total limit lcA).
+  { unfold cnt_total, lcB.
+    assert (H := gp_wsum_upd (fun _ => 1) limit 1%nat lcA j (cj - 1) ltac:(lia) ltac:(lia) ltac:(lia)).
+    cbv beta in H. fold cj in H. lia. }
+  assert (HcntC : cnt_total limit lcC = cnt_total limit lcB + 2).
+  { unfold cnt_total, lcC.
+    assert (H := gp_wsum_upd (fun _ => 1) limit 1%nat lcB (S j) (cj1 + 2) ltac:(lia) ltac:(lia) ltac:(lia)).
+    cbv beta in H. fold cj1 in H. lia. }
+  assert (Hfj : fk j = 2 * fk (S j)).
+  { unfold fk. replace (limit - j)%nat with (S (limit - S j)) by lia. apply pow2_S. }
+  assert (HkrB : kraft_total limit lcB + fk j = kraft_total limit lcA).
+  { rewrite !gp_kraft_total_wsum. fold fk. unfold lcB.
+    assert (H := gp_wsum_upd fk limit 1%nat lcA j (cj - 1) ltac:(lia) ltac:(lia) ltac:(lia)).
+    fold cj in H.
+    assert (Hcj : cj = (cj - 1) + 1) by lia.
+    remember (cj - 1) as c' eqn:Ec'. rewrite Hcj in H. lia. }
+  assert (HkrC : kraft_total limit lcC = kraft_total limit lcB + fk j).
+  { rewrite !gp_kraft_total_wsum. fold fk. unfold lcC.
+    assert (H := gp_wsum_upd fk limit 1%nat lcB (S j) (cj1 + 2) ltac:(lia) ltac:(lia) ltac:(lia)).
+    fold cj1 in H. lia. }
+  assert (HlC : cl - 1 <= nthN lcC (N.of_nat limit)).
+  { assert (HlB : nthN lcB (N.of_nat limit) = cl - 1).
+    { unfold lcB. rewrite gp_nthN_updN_other by lia. exact HlA. }
+    unfold lcC. destruct (Nat.eq_dec (S j) limit) as [Ej|Ej].
+    - rewrite Ej. rewrite gp_nthN_updN_same by lia. unfold cj1. rewrite Ej. lia.
+    - rewrite gp_nthN_updN_other by lia. lia. }
+  unfold kf_inv. split; [unfold lcC; rewrite gp_updN_length; exact HlenB|].
+  split; [lia|]. split; [lia|]. right. lia.
+Qed.
+
+Lemma gp_kraft_fix : forall fuel limit n lc,
+  (1 <= limit)%nat -> n <= 2 ^ N.of_nat limit ->
+  kf_inv limit n lc (N.of_nat fuel) -> kf_inv limit n (kraft_fix fuel limit lc) 0.
+Proof.
+  induction fuel as [|fuel IH]; intros limit n lc Hlim Hn Hinv.
+  - exact Hinv.
+  - cbn [kraft_fix]. apply IH; [exact Hlim|exact Hn|].
+    replace (N.of_nat fuel) with (N.of_nat (S fuel) - 1) by lia.
+    apply gp_kraft_fix_step; [exact Hlim|exact Hn|lia|exact Hinv].
+Qed.
+
+Lemma gp_count_into_ge : forall ws lc i, nthN lc i <= nthN (count_into ws lc) i.
+Proof.
+  induction ws as [|v r IH]; intros lc i; cbn [count_into]; [lia|].
+  assert (H := IH (incN lc v 1) i).
+  assert (nthN lc i <= nthN (incN lc v 1) i); [|lia].
+  unfold incN. destruct (N.eq_dec v i) as [E|E].
+  - subst v. destruct (Nat.lt_ge_cases (N.to_nat i) (length lc)) as [Hl|Hl].
+    + rewrite gp_nthN_updN_same by exact Hl. lia.
+    + rewrite gp_updN_out by exact Hl. lia.
+  - rewrite gp_nthN_updN_other by exact E. lia.
+Qed.
+
+Lemma gp_count_into_in : forall ws lc v, In v ws -> (N.to_nat v < length lc)%nat ->
+  nthN lc v + 1 <= nthN (count_into ws lc) v.
+Proof.
+  induction ws as [|x r IH]; intros lc v Hin Hv; [destruct Hin|].
+  cbn [count_into]. destruct (N.eq_dec x v) as [E|E].
+  - subst x. assert (H := gp_count_into_ge r (incN lc v 1) v).
+    unfold incN in H at 1. rewrite gp_nthN_updN_same in H by exact Hv. exact H.
+  - destruct Hin as [Hin|Hin]; [contradiction|].
+    assert (H := IH (incN lc x 1) v Hin). rewrite gp_incN_length in H.
+    unfold incN in H at 1. rewrite gp_nthN_updN_other in H by exact E. apply H. exact Hv.
+Qed.
+
+Lemma gp_sum_ones : forall (l : list N), sumN (map (fun _ => 1) l) = N.of_nat (length l).
+Proof. induction l as [|x l IH]; cbn [map sumN length]; [reflexivity|]. rewrite IH. lia. Qed.
+
+Lemma gp_enforce_init : forall limit M w,
+  (1 <= limit)%nat -> (limit < M)%nat ->
+  Forall (fun x => 1 <= x /\ x <= N.of_nat M) w -> In (N.of_nat M) w ->
+  KS (N.of_nat M) w = 2 ^ N.of_nat M ->
+  let lc := count_into w (repeat 0 (S M)) in
+  let lc1 := firstn (S limit) (updN lc (N.of_nat limit)
+                                 (nthN lc (N.of_nat limit) + sumN (skipn (S limit) lc))) in
+  exists E, kraft_total limit lc1 = 2 ^ N.of_nat limit + E /\ kf_inv limit (lenN w) lc1 E.
+Proof.
+  intros limit M w Hlim HM Hw HinM Hks lc lc1.
+  assert (Hlen : length lc = S M) by (unfold lc; rewrite gp_count_into_length; apply repeat_length).
+  assert (Hsum : forall f, wsum f 1 M lc = sumN (map (fun x => f (N.to_nat x)) w)).
+  { intros f. unfold lc. rewrite gp_wsum_count_into; [|apply repeat_length|exact Hw].
+    rewrite gp_wsum_zero; [lia|]. intros i _ _. apply gp_nthN_repeat0. }
+  set (over := sumN (skipn (S limit) lc)) in *.
+  assert (Hover : over = wsum (fun _ => 1) (S limit) (M - limit) lc).
+  { unfold over. apply gp_sum_skipn. lia. }
+  assert (Hsplit : forall f, wsum f 1 M lc = wsum f 1 limit lc + wsum f (S limit) (M - limit) lc).
+  { intros f. replace M with (limit + (M - limit))%nat at 1 by lia. rewrite gp_wsum_app.
+    reflexivity. }
+  assert (Hlc1 : forall f, wsum f 1 limit lc1 = wsum f 1 limit lc + over * f limit).
+  { intros f. unfold lc1. rewrite gp_wsum_firstn by lia.
+    assert (H := gp_wsum_upd f limit 1%nat lc limit (nthN lc (N.of_nat limit) + over)
+                   ltac:(lia) ltac:(lia) ltac:(lia)). lia. }
+  assert (Hcnt : cnt_total limit lc1 = lenN w).
+  { unfold cnt_total. rewrite Hlc1. rewrite Hover.
+    assert (H := Hsplit (fun _ => 1)). rewrite Hsum in H. rewrite gp_sum_ones in H.
+    unfold lenN. lia. }
+  set (fk := fun i : nat => 2 ^ N.of_nat (limit - i)).
+  set (fM := fun i : nat => 2 ^ N.of_nat (M - i)).
+  set (A := wsum fk 1 limit lc).
+  set (R := wsum fM (S limit) (M - limit) lc).
+  set (q := 2 ^ N.of_nat (M - limit - 1)).
+  assert (Hq : 0 < q) by apply pow2_pos.
+  assert (HkM : 2 * q * A + R = 2 * q * 2 ^ N.of_nat limit).
+  { assert (H := Hsplit fM). rewrite Hsum in H. fold R in H.
+    assert (H1 : wsum fM 1 limit lc = 2 * q * A).
+    { unfold A. rewrite <- gp_wsum_scale. apply gp_wsum_ext. intros i Hi Hil.
+      unfold fM, fk, q. rewrite <- pow2_S. rewrite <- pow2_add. f_equal. lia. }
+    rewrite H1 in H. rewrite <- H.
+    assert (H2 : 2 * q * 2 ^ N.of_nat limit = 2 ^ N.of_nat M).
+    { unfold q. rewrite <- pow2_S. rewrite <- pow2_add. f_equal. lia. }
+    rewrite H2. rewrite <- Hks. unfold KS, fM. f_equal. apply map_ext_in.
+    intros x Hx. rewrite Forall_forall in Hw. assert (Hx' := Hw x Hx). cbv beta in Hx'.
+    f_equal. lia. }
+  assert (HR1 : R <= q * over).
+  { rewrite Hover. rewrite <- gp_wsum_scale. unfold R. apply gp_wsum_le.
+    intros i Hi Hil. unfold fM, q. rewrite N.mul_1_r. apply N.pow_le_mono_r; lia. }
+  assert (HR0 : 0 < R).
+  { assert (H := gp_wsum_term fM (M - limit) (S limit) lc M ltac:(lia) ltac:(lia)). fold R in H.
+    assert (Hf : fM M = 1) by (unfold fM; rewrite Nat.sub_diag; reflexivity).
+    rewrite Hf in H.
+    assert (Hc := gp_count_into_in w (repeat 0 (S M)) (N.of_nat M) HinM).
+    rewrite repeat_length in Hc. fold lc in Hc. specialize (Hc ltac:(lia)). lia. }
+  assert (HA : A < 2 ^ N.of_nat limit).
+  { destruct (N.lt_ge_cases A (2 ^ N.of_nat limit)) as [Hc|Hc]; [exact Hc|exfalso].
+    assert (2 * q * 2 ^ N.of_nat limit <= 2 * q * A) by (apply N.mul_le_mono_l; exact Hc). lia. }
+  assert (HP : 2 ^ N.of_nat limit < A + over).
+  { destruct (N.lt_ge_cases (2 ^ N.of_nat limit) (A + over)) as [Hc|Hc]; [exact Hc|exfalso].
+    assert (H : 2 * q * (A + over) <= 2 * q * 2 ^ N.of_nat limit) by (apply N.mul_le_mono_l; exact Hc).
+    rewrite N.mul_add_distr_l in H. lia. }
+  assert (Hkr : kraft_total limit lc1 = A + over).
+  { rewrite gp_kraft_total_wsum. fold fk. rewrite Hlc1. fold A.
+    assert (Hf : fk limit = 1) by (unfold fk; rewrite Nat.sub_diag; reflexivity).
+    rewrite Hf. lia. }
+  exists (A + over - 2 ^ N.of_nat limit).
+  split; [lia|].
+  unfold kf_inv. split.
+  { unfold lc1. rewrite firstn_length, gp_updN_length. lia. }
+  split; [exact Hcnt|]. split; [lia|]. right.
+  assert (Hl : nthN lc1 (N.of_nat limit) = nthN lc (N.of_nat limit) + over).
+  { unfold lc1, nthN. rewrite gp_nth_firstn by lia.
+    apply (gp_nthN_updN_same lc (N.of_nat limit)). lia. }
+  lia.
+Qed.
+
+(* spread_lengths *)
+Lemma gp_spread_gen : forall (L : N) lc m a,
+  let S := flat_map (fun i => repeat (N.of_nat i) (N.to_nat (nthN lc (N.of_nat i)))) (seq a m) in
+  N.of_nat (length S) = wsum (fun _ => 1) a m lc /\
+  Forall (fun x => N.of_nat a <= x /\ x < N.of_nat (a + m)) S /\
+  KS L S = wsum (fun i => 2 ^ (L - N.of_nat i)) a m lc.
+Proof.
+  intros L lc m. induction m as [|m IH]; intros a.
+  - cbn [seq flat_map]. split; [reflexivity|]. split; [constructor|reflexivity].
+  - cbn [seq flat_map]. destruct (IH (S a)) as (H1 & H2 & H3). cbv zeta.
+    split; [|split].
+    + rewrite app_length, repeat_length, gp_wsum_S. lia.
+    + apply Forall_app. split.
+      * apply Forall_forall. intros x Hx. apply repeat_spec in Hx. subst x. lia.
+      * eapply Forall_impl; [|exact H2]. cbv beta. intros x Hx. lia.
+    + rewrite gp_KS_app, gp_KS_repeat, gp_wsum_S. rewrite H3. lia.
+Qed.
+
+Lemma gp_spread : forall limit lc,
+  N.of_nat (length (spread_lengths limit lc)) = cnt_total limit lc /\
+  Forall (fun x => 1 <= x /\ x <= N.of_nat limit) (spread_lengths limit lc) /\
+  KS (N.of_nat limit) (spread_lengths limit lc) = kraft_total limit lc.
+Proof.
+  intros limit lc. destruct (gp_spread_gen (N.of_nat limit) lc limit 1) as (H1 & H2 & H3).
+  split; [exact H1|]. split.
+  - eapply Forall_impl; [|exact H2]. cbv beta. intros x Hx. lia.
+  - unfold spread_lengths. rewrite H3. rewrite gp_kraft_total_wsum.
+    apply gp_wsum_ext. intros i Hi Hil. f_equal. lia.
+Qed.
+
+Lemma gp_last_in : forall (l : list N) d, l <> [] -> In (last l d) l.
+Proof.
+  intros l d Hl. rewrite (app_removelast_last d Hl) at 2. apply in_or_app. right. left. reflexivity.
+Qed.
+
+(* the limiter as a whole *)
+Lemma gp_limiter : forall limit n w,
+  cl_post n w -> (1 <= limit)%nat -> N.of_nat limit < last w 0 ->
+  N.of_nat n <= 2 ^ N.of_nat limit ->
+  let lc := count_into w (repeat 0 (S (N.to_nat (last w 0)))) in
+  let S := spread_lengths limit (enforce_max_len limit lc) in
+  length S = n /\ Forall (fun x => 1 <= x /\ x <= N.of_nat limit) S /\
+  KS (N.of_nat limit) S = 2 ^ N.of_nat limit.
+Proof.
+  intros limit n w Hpost Hlim Hlast Hn lc S.
+  destruct Hpost as (Hlen & Hpos & Hmax & Hone & d & Hd & _ & Hks).
+  assert (Hn2 : (2 <= n)%nat).
+  { destruct n as [|[|n]]; [| |lia].
+    - destruct w; [cbn [last] in Hlast; lia|discriminate Hlen].
+    - rewrite (Hone eq_refl) in Hlast. cbn [last] in Hlast. lia. }
+  specialize (Hks Hn2).
+  assert (Hne : w <> []) by (intros E; subst w; cbn [length] in Hlen; lia).
+  assert (HinM : In (last w 0) w) by (apply gp_last_in; exact Hne).
+  set (M := N.to_nat (last w 0)) in *.
+  assert (HM : N.of_nat M = last w 0) by (unfold M; lia).
+  assert (HMd : last w 0 <= d) by (rewrite Forall_forall in Hd; apply Hd; exact HinM).
+  assert (HksM : KS (N.of_nat M) w = 2 ^ N.of_nat M).
+  { rewrite HM. rewrite (gp_KS_scale (last w 0) d w Hmax HMd) in Hks.
+    replace d with ((d - last w 0) + last w 0) in Hks at 2 by lia.
+    rewrite N.pow_add_r in Hks. apply N.mul_cancel_l in Hks; [exact Hks|].
+    apply N.pow_nonzero. discriminate. }
+  assert (Hw : Forall (fun x => 1 <= x /\ x <= N.of_nat M) w).
+  { rewrite HM. rewrite Forall_forall in *. intros x Hx. split; [apply Hpos|apply Hmax]; exact Hx. }
+  rewrite <- HM in HinM.
+  destruct (gp_enforce_init limit M w Hlim ltac:(lia) Hw HinM HksM) as (E & HE & Hinv).
+  fold lc in HE, Hinv.
+  assert (Hfin : kf_inv limit (lenN w) (enforce_max_len limit lc) 0).
+  { unfold enforce_max_len. rewrite HE.
+    replace (2 ^ N.of_nat limit + E - 2 ^ N.of_nat limit) with E by lia.
+    apply gp_kraft_fix; [exact Hlim|unfold lenN; rewrite Hlen; exact Hn|].
+    rewrite N2Nat.id. exact Hinv. }
+  destruct Hfin as (_ & Hc & Hk & _).
+  destruct (gp_spread limit (enforce_max_len limit lc)) as (H1 & H2 & H3).
+  fold S in H1, H2, H3.
+  split; [unfold lenN in Hc; lia|]. split; [exact H2|]. rewrite H3, Hk. lia.
+Qed.
+(* ------------------------------------------------------------------ *)
+(* 7. keys, sorting, scatter                                            *)
+
+Lemma gp_insert_desc_perm : forall k l, Permutation (insert_desc k l) (k :: l).
+Proof.
+  intros k l. induction l as [|x r IH]; cbn [insert_desc]; [apply Permutation_refl|].
+  destruct (x <? k); [apply Permutation_refl|].
+  eapply Permutation_trans; [apply perm_skip; exact IH|apply perm_swap].
+Qed.
+
+Lemma gp_sort_desc_perm : forall l, Permutation (sort_desc l) l.
+Proof.
+  induction l as [|x r IH]; [apply Permutation_refl|].
+  unfold sort_desc. cbn [fold_right]. fold (sort_desc r).
+  eapply Permutation_trans; [apply gp_insert_desc_perm|]. apply perm_skip. exact IH.
+Qed.
+
+(* the keys of a histogram whose first symbol is a *)
+Definition keys_from (a : N) (hist : list N) : list N :=
+  flat_map (fun '(i, v) => if v =? 0 then [] else [(v mod two16) * two16 + i])
+           (combine (seqN a (length hist)) hist).
+
+Lemma gp_keys_cons : forall a v r,
+  keys_from a (v :: r) = (if v =? 0 then [] else [(v mod two16) * two16 + a]) ++ keys_from (a + 1) r.
+Proof. intros. reflexivity. Qed.
+
+Lemma gp_keys_length : forall hist a, length (keys_from a hist) = used_symbols hist.
+Proof.
+  induction hist as [|v r IH]; intros a; [reflexivity|].
+  rewrite gp_keys_cons, app_length, IH. unfold used_symbols. cbn [filter].
+  destruct (v =? 0); reflexivity.
+Qed.
+
+Lemma gp_key_mod : forall v a, a < two16 -> ((v mod two16) * two16 + a) mod two16 = a.
+Proof.
+  intros v a Ha. rewrite N.add_comm. rewrite N.mod_add by discriminate.
+  apply N.mod_small. exact Ha.
+Qed.
+
+Lemma gp_keys_range : forall hist a x, a + N.of_nat (length hist) <= two16 ->
+  In x (map (fun k => k mod two16) (keys_from a hist)) -> a <= x /\ x < a + N.of_nat (length hist).
+Proof.
+  induction hist as [|v r IH]; intros a x Hb Hx; [destruct Hx|].
+  rewrite gp_keys_cons, map_app in Hx. cbn [length] in *. apply in_app_or in Hx. destruct Hx as [Hx|Hx].
+  - destruct (v =? 0); [destruct Hx|]. cbn [map In] in Hx. destruct Hx as [Hx|[]].
+    subst x. rewrite gp_key_mod by lia. lia.
+  - apply IH in Hx; lia.
+Qed.
+
+Lemma gp_keys_nodup : forall hist a, a + N.of_nat (length hist) <= two16 ->
+  NoDup (map (fun k => k mod two16) (keys_from a hist)).
+Proof.
+  induction hist as [|v r IH]; intros a Hb; [constructor|].
+  rewrite gp_keys_cons, map_app. cbn [length] in Hb.
+  assert (Hr : NoDup (map (fun k => k mod two16) (keys_from (a + 1) r))) by (apply IH; lia).
+  destruct (v =? 0); [exact Hr|]. cbn [map app]. constructor; [|exact Hr].
+  intros Hin. apply gp_keys_range in Hin; [|lia].
+  rewrite gp_key_mod in Hin by lia. lia.
+Qed.
+
+Lemma gp_keys_cover : forall hist a i, a + N.of_nat (length hist) <= two16 ->
+  nthN hist i <> 0 -> In (a + i) (map (fun k => k mod two16) (keys_from a hist)).
+Proof.
+  induction hist as [|v r IH]; intros a i Hb Hi.
+  - exfalso. apply Hi. unfold nthN. destruct (N.to_nat i); reflexivity.
+  - rewrite gp_keys_cons, map_app. cbn [length] in Hb. apply in_or_app.
+    destruct (N.eq_dec i 0) as [E|E].
+    + subst i. left. change (nthN (v :: r) 0) with v in Hi.
+      apply N.eqb_neq in Hi. rewrite Hi. cbn [map]. left.
+      rewrite gp_key_mod by lia. lia.
+    + right. replace (a + i) with (a + 1 + (i - 1)) by lia. apply IH; [lia|].
+      unfold nthN in *. replace (N.to_nat i) with (S (N.to_nat (i - 1))) in Hi by lia.
+      exact Hi.
+Qed.
+
+(* scatter_lens *)
+Lemma gp_scatter_length : forall lits lens acc, length (scatter_lens lits lens acc) = length acc.
+Proof.
+  induction lits as [|s ls IH]; intros lens acc; [reflexivity|].
+  destruct lens as [|v vs]; [reflexivity|]. cbn [scatter_lens]. rewrite IH. apply gp_updN_length.
+Qed.
+
+Lemma gp_scatter_notin : forall lits lens acc s, ~ In s lits ->
+  nthN (scatter_lens lits lens acc) s = nthN acc s.
+Proof.
+  induction lits as [|s0 ls IH]; intros lens acc s Hs; [reflexivity|].
+  destruct lens as [|v vs]; [reflexivity|]. cbn [scatter_lens].
+  rewrite IH by (intros H; apply Hs; right; exact H).
+  apply gp_nthN_updN_other. intros E. apply Hs. left. exact E.
+Qed.
+
+Lemma gp_Forall_upd : forall (P : N -> Prop) l i v, Forall P l -> P v -> Forall P (upd i v l).
+Proof.
+  intros P l. induction l as [|x l IH]; intros i v Hl Hv.
+  - rewrite upd_nil. constructor.
+  - inversion Hl as [|x' l' Hx Hl']; subst x' l'. destruct i as [|i].
+    + rewrite upd_0. constructor; assumption.
+    + rewrite upd_S. constructor; [exact Hx|]. apply IH; assumption.
+Qed.
+
+Lemma gp_scatter_Forall : forall (P : N -> Prop) lits lens acc,
+  Forall P acc -> Forall P lens -> Forall P (scatter_lens lits lens acc).
+Proof.
+  intros P lits. induction lits as [|s ls IH]; intros lens acc Ha Hl; [exact Ha|].
+  destruct lens as [|v vs]; [exact Ha|]. cbn [scatter_lens].
+  inversion Hl as [|v' vs' Hv Hvs]; subst v' vs'.
+  apply IH; [|exact Hvs]. unfold updN. apply gp_Forall_upd; assumption.
+Qed.
+
+Lemma gp_scatter_in : forall lits lens acc s, length lits = length lens -> In s lits ->
+  (N.to_nat s < length acc)%nat -> In (nthN (scatter_lens lits lens acc) s) lens.
+Proof.
+  induction lits as [|s0 ls IH]; intros lens acc s Hlen Hin Hs; [destruct Hin|].
+  destruct lens as [|v vs]; [discriminate Hlen|]. cbn [scatter_lens]. cbn [length] in Hlen.
+  destruct (in_dec N.eq_dec s ls) as [Hi|Hi].
+  - right. apply IH; [lia|exact Hi|rewrite gp_updN_length; exact Hs].
+  - destruct Hin as [Hin|Hin]; [|contradiction]. subst s0.
+    rewrite gp_scatter_notin by exact Hi. rewrite gp_nthN_updN_same by exact Hs. left. reflexivity.
+Qed.
+
+Lemma gp_scatter_overwrite : forall lits lens acc acc', length lits = length lens ->
+  length acc = length acc' ->
+  (forall s, ~ In s lits -> nthN acc s = nthN acc' s) ->
+  scatter_lens lits lens acc = scatter_lens lits lens acc'.
+Proof.
+  induction lits as [|s0 ls IH]; intros lens acc acc' Hlen Hacc Hout.
+  - cbn [scatter_lens]. apply (nth_ext acc acc' 0 0 Hacc). intros i Hi.
+    assert (H := Hout (N.of_nat i) ltac:(intros [])). unfold nthN in H. rewrite Nat2N.id in H. exact H.
+  - destruct lens as [|v vs]; [discriminate Hlen|]. cbn [scatter_lens]. cbn [length] in Hlen.
+    apply IH; [lia|rewrite !gp_updN_length; exact Hacc|].
+    intros s Hs. destruct (N.eq_dec s0 s) as [E|E].
+    + subst s0. destruct (Nat.lt_ge_cases (N.to_nat s) (length acc)) as [Hl|Hl].
+      * rewrite !gp_nthN_updN_same by lia. reflexivity.
+      * rewrite !gp_nthN_out by (rewrite gp_updN_length; lia). reflexivity.
+    + rewrite !gp_nthN_updN_other by exact E. apply Hout. intros [H|H]; [contradiction|contradiction].
+Qed.
+
+(* Kraft sum of a length vector indexed by symbol *)
+Definition kterm (m : nat) (x : N) : N :=
+  if Nat.eqb (N.to_nat x) 0 then 0 else 2 ^ N.of_nat (m - N.to_nat x).
+
+Lemma gp_kraft_upd : forall m l i v, (i < length l)%nat ->
+  kraft m (map N.to_nat (upd i v l)) + kterm m (nth i l 0) = kraft m (map N.to_nat l) + kterm m v.
+Proof.
+  intros m l. induction l as [|x l IH]; intros i v Hi; cbn [length] in Hi; [lia|].
+  destruct i as [|i].
+  - rewrite upd_0. cbn [map kraft nth]. unfold kterm. lia.
+  - rewrite upd_S. cbn [map kraft nth]. assert (H := IH i v ltac:(lia)). lia.
+Qed.
+
+Lemma gp_kraft_zeros : forall m k, kraft m (map N.to_nat (repeat 0 k)) = 0.
+Proof. intros m k. induction k as [|k IH]; [reflexivity|]. cbn [repeat map kraft]. rewrite IH. reflexivity. Qed.
+
+Lemma gp_scatter_kraft : forall m lits lens acc, NoDup lits ->
+  (forall s, In s lits -> (N.to_nat s < length acc)%nat /\ nthN acc s = 0) ->
+  length lits = length lens ->
+  Forall (fun x => 1 <= x /\ x <= N.of_nat m) lens ->
+  kraft m (map N.to_nat (scatter_lens lits lens acc)) =
+    kraft m (map N.to_nat acc) + KS (N.of_nat m) lens.
+Proof.
+  intros m lits. induction lits as [|s ls IH]; intros lens acc Hnd Hacc Hlen Hl.
+  - destruct lens; [|discriminate Hlen]. cbn [scatter_lens]. unfold KS. cbn [map sumN]. lia.
+  - destruct lens as [|v vs]; [discriminate Hlen|]. cbn [scatter_lens]. cbn [length] in Hlen.
+    inversion Hnd as [|s' ls' Hnotin Hnd']; subst s' ls'.
+    inversion Hl as [|v' vs' Hv Hvs]; subst v' vs'.
+    destruct (Hacc s ltac:(left; reflexivity)) as (Hs & Hs0).
+    rewrite IH; [|exact Hnd'| |lia|exact Hvs].
+    + assert (H := gp_kraft_upd m acc (N.to_nat s) v Hs). fold (updN acc s v) in H.
+      unfold nthN in Hs0. rewrite Hs0 in H.
+      assert (Hk0 : kterm m 0 = 0) by reflexivity. rewrite Hk0 in H.
+      assert (Hkv : kterm m v = 2 ^ (N.of_nat m - v)).
+      { unfold kterm. destruct (Nat.eqb_spec (N.to_nat v) 0) as [E|E]; [lia|]. f_equal. lia. }
+      rewrite Hkv in H. unfold KS. cbn [map sumN]. fold (KS (N.of_nat m) vs). lia.
+    + intros s' Hs'. destruct (Hacc s' ltac:(right; exact Hs')) as (H1 & H2).
+      split; [rewrite gp_updN_length; exact H1|].
+      rewrite gp_nthN_updN_other; [exact H2|]. intros E. subst s'. contradiction.
+Qed.
+
+Lemma gp_scatter_valid : forall limit hist lits lens, NoDup lits ->
+  (forall s, In s lits -> (N.to_nat s < length hist)%nat) ->
+  (forall i, nthN hist i <> 0 -> In i lits) ->
+  length lits = length lens ->
+  Forall (fun x => 1 <= x /\ x <= N.of_nat limit) lens ->
+  KS (N.of_nat limit) lens <= 2 ^ N.of_nat limit ->
+  lens_valid limit hist (scatter_lens lits lens (repeat 0 (length hist))).
+Proof.
+  intros limit hist lits lens Hnd Hrange Hcover Hlen Hl Hks.
+  unfold lens_valid. split; [rewrite gp_scatter_length; apply repeat_length|].
+  split.
+  { apply gp_scatter_Forall.
+    - apply Forall_forall. intros x Hx. apply repeat_spec in Hx. subst x. lia.
+    - eapply Forall_impl; [|exact Hl]. cbv beta. intros x Hx. lia. }
+  split.
+  { unfold oversubscribed. apply N.ltb_ge.
+    rewrite (gp_scatter_kraft limit lits lens); [|exact Hnd| |exact Hlen|exact Hl].
+    - rewrite gp_kraft_zeros. lia.
+    - intros s Hs. rewrite repeat_length. split; [apply Hrange; exact Hs|apply gp_nthN_repeat0]. }
+  intros i Hi.
+  assert (Hin : In i lits) by (apply Hcover; exact Hi).
+  assert (H := gp_scatter_in lits lens (repeat 0 (length hist)) i Hlen Hin).
+  rewrite repeat_length in H. specialize (H (Hrange i Hin)).
+  rewrite Forall_forall in Hl. apply Hl in H. lia.
+Qed.
+
+(* ------------------------------------------------------------------ *)
+(* 8. generate_valid, block_always_ok                                   *)
+
+Lemma gp_cl_post_kraft : forall n w L, cl_post n w -> (1 <= n)%nat -> last w 0 <= L ->
+  KS L w <= 2 ^ L.
+Proof.
+  intros n w L Hpost Hn HL.
+  destruct Hpost as (Hlen & Hpos & Hmax & Hone & d & Hd & Hks & _).
+  assert (Hne : w <> []) by (intros E; subst w; cbn [length] in Hlen; lia).
+  assert (HinM : In (last w 0) w) by (apply gp_last_in; exact Hne).
+  set (m := last w 0) in *.
+  assert (Hmd : m <= d) by (rewrite Forall_forall in Hd; apply Hd; exact HinM).
+  assert (Hm : KS m w <= 2 ^ m).
+  { rewrite (gp_KS_scale m d w Hmax Hmd) in Hks.
+    replace d with ((d - m) + m) in Hks at 2 by lia.
+    rewrite N.pow_add_r in Hks. apply N.mul_le_mono_pos_l in Hks; [exact Hks|].
+    apply N.neq_0_lt_0. apply N.pow_nonzero. discriminate. }
+  rewrite (gp_KS_scale m L w Hmax HL).
+  replace L with ((L - m) + m) at 2 by lia. rewrite N.pow_add_r.
+  apply N.mul_le_mono_l. exact Hm.
+Qed.
+
+Lemma gp_generate_eq : forall limit hist,
+  generate limit hist =
+  let keys := sort_desc (keys_from 0 hist) in
+  let lits := map (fun k => k mod two16) keys in
+  let w := code_lens (map (fun k => k / two16) keys) in
+  let zero := repeat 0 (length hist) in
+  if last w 0 <=? N.of_nat limit then scatter_lens lits w zero
+  else scatter_lens lits
+         (spread_lengths limit
+            (enforce_max_len limit (count_into w (repeat 0 (S (N.to_nat (last w 0)))))))
+         (scatter_lens lits w zero).
+Proof. intros. reflexivity. Qed.
+
+Lemma gp_of_nat_lt : forall a b : nat, (a < b)%nat -> N.of_nat a < N.of_nat b.
+Proof. intros a b H. lia. Qed.
+
+Local Set Warnings "-abstract-large-number".
+Lemma gp_big : N.of_nat 65536 = two16.
+Proof. vm_compute. reflexivity. Qed.
+
+Theorem generate_valid : generate_valid_statement.
+Proof.
+  unfold generate_valid_statement. intros limit hist Hlim Hused Hlen.
+  rewrite gp_generate_eq. cbv zeta.
+  set (keys := sort_desc (keys_from 0 hist)).
+  set (lits := map (fun k => k mod two16) keys).
+  set (ws := map (fun k => k / two16) keys).
+  set (w := code_lens ws).
+  assert (Hperm : Permutation lits (map (fun k => k mod two16) (keys_from 0 hist))).
+  { unfold lits, keys. apply Permutation_map. apply gp_sort_desc_perm. }
+  assert (Hb : 0 + N.of_nat (length hist) <= two16).
+  { apply gp_of_nat_lt in Hlen. rewrite gp_big in Hlen. lia. }
+  clear Hlen.
+  assert (Hnd : NoDup lits).
+  { apply (Permutation_NoDup (Permutation_sym Hperm)). apply gp_keys_nodup. exact Hb. }
+  assert (Hrange : forall s, In s lits -> (N.to_nat s < length hist)%nat).
+  { intros s Hs. apply (Permutation_in _ Hperm) in Hs. apply gp_keys_range in Hs; [lia|exact Hb]. }
+  assert (Hcover : forall i, nthN hist i <> 0 -> In i lits).
+  { intros i Hi. apply (Permutation_in _ (Permutation_sym Hperm)).
+    assert (H := gp_keys_cover hist 0 i Hb Hi). rewrite N.add_0_l in H. exact H. }
+  assert (Hklen : length keys = used_symbols hist).
+  { unfold keys. rewrite (Permutation_length (gp_sort_desc_perm _)). apply gp_keys_length. }
+  assert (Hllen : length lits = used_symbols hist) by (unfold lits; rewrite map_length; exact Hklen).
+  assert (Hwslen : length ws = used_symbols hist) by (unfold ws; rewrite map_length; exact Hklen).
+  destruct (Nat.eq_dec (used_symbols hist) 0) as [Ez|Ez].
+  - (* no symbol is used *)
+    assert (Ews : ws = []) by (destruct ws; [reflexivity|cbn [length] in Hwslen; lia]).
+    assert (Ew : w = []) by (unfold w; rewrite Ews; reflexivity).
+    rewrite Ew. cbn [last].
+    assert (Hle : (0 <=? N.of_nat limit) = true) by (apply N.leb_le; lia).
+    rewrite Hle. apply gp_scatter_valid.
+    + exact Hnd.
+    + exact Hrange.
+    + exact Hcover.
+    + rewrite Hllen, Ez. reflexivity.
+    + constructor.
+    + unfold KS. cbn [map sumN]. lia.
+  - assert (Hpost : cl_post (length ws) w) by (apply gp_code_lens; lia).
+    assert (Hwlen : length w = length ws) by (destruct Hpost as (H & _); exact H).
+    destruct (last w 0 <=? N.of_nat limit) eqn:Emax.
+    + apply N.leb_le in Emax. apply gp_scatter_valid.
+      * exact Hnd.
+      * exact Hrange.
+      * exact Hcover.
+      * lia.
+      * destruct Hpost as (_ & Hpos & Hmax & _). rewrite Forall_forall in *.
+        intros x Hx. assert (H1 := Hpos x Hx). assert (H2 := Hmax x Hx). cbv beta in H1, H2. lia.
+      * apply (gp_cl_post_kraft (length ws) w); [exact Hpost|lia|exact Emax].
+    + apply N.leb_gt in Emax.
+      destruct (gp_limiter limit (length ws) w Hpost ltac:(lia) Emax ltac:(rewrite Hwslen; exact Hused))
+        as (Hs1 & Hs2 & Hs3).
+      set (sp := spread_lengths limit
+                   (enforce_max_len limit (count_into w (repeat 0 (S (N.to_nat (last w 0))))))) in *.
+      rewrite (gp_scatter_overwrite lits sp _ (repeat 0 (length hist))).
+      * apply gp_scatter_valid.
+        -- exact Hnd.
+        -- exact Hrange.
+        -- exact Hcover.
+        -- lia.
+        -- exact Hs2.
+        -- lia.
+      * lia.
+      * apply gp_scatter_length.
+      * intros s Hs. apply gp_scatter_notin. exact Hs.
+Qed.
+
+Print Assumptions generate_valid.
+
+(* histogram sizes *)
+Lemma gp_used_le : forall hist, (used_symbols hist <= length hist)%nat.
+Proof.
+  intros hist. unfold used_symbols. induction hist as [|v r IH]; [cbn [filter length]; lia|].
+  cbn [filter]. destruct (negb (v =? 0)); cbn [length]; lia.
+Qed.
+
+Lemma gp_lt_of_nat : forall a b : nat, N.of_nat a < N.of_nat b -> (a < b)%nat.
+Proof. intros a b H. lia. Qed.
+
+Lemma gp_generate_len : forall limit hist, (1 <= limit <= 15)%nat ->
+  N.of_nat (length hist) <= 2 ^ N.of_nat limit ->
+  lens_valid limit hist (generate limit hist).
+Proof.
+  intros limit hist Hlim Hl. apply generate_valid; [exact Hlim| |].
+  - assert (H := gp_used_le hist). lia.
+  - apply gp_lt_of_nat. rewrite gp_big.
+    assert (H : 2 ^ N.of_nat limit <= 2 ^ 15) by (apply N.pow_le_mono_r; lia).
+    change (2 ^ 15) with 32768 in H. unfold two16. lia.
+Qed.
+
+Lemma gp_tok_counts_length : forall ts lc dc lc' dc',
+  fold_left (fun '(lc, dc) t =>
+               match t with
+               | TLit b => (incN lc b 1, dc)
+               | TMatch len dist => (incN lc (len + 254) 1, incN dc (fst (dist_symbol dist)) 1)
+               end) ts (lc, dc) = (lc', dc') ->
+  length lc' = length lc /\ length dc' = length dc.
+Proof.
+  induction ts as [|t r IH]; intros lc dc lc' dc' H.
+  - cbn [fold_left] in H. injection H as H1 H2. subst. split; reflexivity.
+  - cbn [fold_left] in H. destruct t as [b|len dist].
+    + apply IH in H. rewrite gp_incN_length in H. exact H.
+    + apply IH in H. rewrite !gp_incN_length in H. exact H.
+Qed.
+
+Lemma gp_fold_incN_length : forall (A : Type) (g : A -> N) (l : list A) h,
+  length (fold_left (fun h x => incN h (g x) 1) l h) = length h.
+Proof.
+  intros A g l. induction l as [|x r IH]; intros h; [reflexivity|].
+  cbn [fold_left]. rewrite IH. apply gp_incN_length.
+Qed.
+
+Lemma gp_reduce_counts_length : forall h, length h = 513%nat -> length (reduce_counts h) = 286%nat.
+Proof.
+  intros h Hh. unfold reduce_counts. rewrite gp_updN_length, !app_length, firstn_length.
+  unfold group_sums. cbn [length]. lia.
+Qed.
+
+Lemma gp_cl_hist_length : forall a b, length (cl_hist a b) = 19%nat.
+Proof.
+  intros a b. unfold cl_hist.
+  rewrite (gp_fold_incN_length (N * N) (fun it => fst it)). apply repeat_length.
+Qed.
+
+Lemma gp_pow15 : N.of_nat 286 <= 2 ^ N.of_nat 15 /\ N.of_nat 30 <= 2 ^ N.of_nat 15 /\
+                 N.of_nat 19 <= 2 ^ N.of_nat 7.
+Proof. vm_compute. repeat split; discriminate. Qed.
+
+Theorem block_always_ok : block_always_ok_statement.
+Proof.
+  unfold block_always_ok_statement. destruct gp_pow15 as (P1 & P2 & P3). split.
+  - intros ts _. unfold block_ok, block_lens.
+    destruct (tok_counts ts) as [lc dc] eqn:E.
+    unfold tok_counts in E. apply gp_tok_counts_length in E. rewrite !repeat_length in E.
+    destruct E as (E1 & E2).
+    assert (Hr := gp_reduce_counts_length lc E1).
+    split; [|split].
+    + apply gp_generate_len; [lia|rewrite Hr; exact P1].
+    + apply gp_generate_len; [lia|rewrite E2; exact P2].
+    + apply gp_generate_len; [lia|rewrite gp_cl_hist_length; exact P3].
+  - intros data _. unfold hblock_ok, hblock_lens. cbv zeta.
+    assert (Hr : length (reduce_counts (fold_left (fun h x => incN h x 1) data (repeat 0 513))) = 286%nat).
+    { apply gp_reduce_counts_length.
+      rewrite (gp_fold_incN_length N (fun x => x)). apply repeat_length. }
+    split.
+    + apply gp_generate_len; [lia|rewrite Hr; exact P1].
+    + apply gp_generate_len; [lia|rewrite gp_cl_hist_length; exact P3].
+Qed.
+
+Print Assumptions block_always_ok.
